@@ -107,6 +107,8 @@ def interrupted_paths(g, b, second=None, maxlen=64):
 
 
 def run(ctx):
+    from .. import wrappers
+    wrappers.check(ctx, ["trigger_key_interrupt"])     # the outer Machine methods the callers use are the routines analysed below
     p, chk, g, mt = ctx.p, ctx.chk, ctx.graph, ctx.micro
     isa = spec.load("isa")
     sem = C01.load_sem()
